@@ -91,6 +91,78 @@ def one(ctx, stream, payload, style="crc", ft=3, via="construct"):
                                             "indoor": dev.indoor_temperature, "target": dev.target_temperature})
 
 
+def local_changes(rng, dev):
+    """the user changes settings locally without applying them"""
+    for _ in range(rng.randrange(0, 4)):
+        k = rng.randrange(8)
+        if k == 0:
+            dev.power_state = not dev.power_state
+        elif k == 1:
+            dev.target_temperature = rng.randrange(34, 61) / 2
+        elif k == 2:
+            dev.fan_speed = rng.randrange(1, 101)
+        elif k == 3:
+            dev.eco = not dev.eco
+        elif k == 4:
+            dev.turbo = not dev.turbo
+        elif k == 5:
+            dev.operational_mode = rng.choice(list(AC.OperationalMode))
+        elif k == 6:
+            dev.target_humidity = rng.randrange(30, 90)
+        else:
+            dev.freeze_protection = not dev.freeze_protection
+
+
+def history(ctx, rng, n, steps):
+    """ONE device object receives a sequence of state reports - repeated reports, reports differing from the previous one
+    in a single byte (every position, the last one included), unrelated reports - with local, un-applied setter calls
+    in between: after EVERY report the exposed attributes are what that report says ("a refresh reports the device's
+    state", whatever the object saw or was told before)."""
+    stream = "history"
+    dev = AC(ip="1.2.3.4", port=6444, device_id=1)
+    prev = bytes(base_payload(rng, n))
+    pos = 1
+    for step in range(steps):
+        kind = rng.choice(["same", "one_byte", "one_byte", "fresh"])
+        if kind == "same":
+            p = prev
+        elif kind == "one_byte":
+            b = bytearray(prev)
+            b[pos] = (b[pos] + rng.randrange(1, 256)) & 0xFF
+            pos = pos + 1 if pos + 1 < len(b) else 1
+            p = bytes(b)
+        else:
+            p = bytes(base_payload(rng, n))
+        local_changes(rng, dev)
+        frame = respgen.make_frame(p, frame_type=3, style=rng.choice(["crc", "sum"]))
+        impl, resp = acgen.impl_construct(frame)
+        inp = {"payload": hx(p), "previous_payload": hx(prev), "step": step, "kind": kind, "frame": hx(frame)}
+        if resp is None or not impl.startswith("state"):
+            ctx.violate(stream, inp, impl, "a state response", "valid status frame not decoded")
+            return
+        dev._update_state(resp)
+        if ctx.driver:
+            want = spec_reported(ctx, p)
+            got = exposed(dev)
+            if want["mode"] not in OP_MODES:
+                want["mode"] = got["mode"]
+            if want["swing"] not in SWINGS:
+                want["swing"] = got["swing"]
+            if want["hum"] is None:
+                want["hum"] = got["hum"]          # an absent optional field leaves the previous value (not a fresh object)
+            if want["freeze"] is None:
+                want["freeze"] = got["freeze"]
+            if got != want:
+                diff = {k: (got[k], want[k]) for k in got if got[k] != want[k]}
+                ctx.violate(stream, inp, diff, "attributes equal the reported values",
+                            "after a sequence of reports and local changes the attributes differ from the LAST report")
+        f = bool(p[10] & 4)
+        temp_facts(ctx, stream, inp, p[11], p[15] & 0xF, f, dev.indoor_temperature)
+        temp_facts(ctx, stream, inp, p[12], p[15] >> 4, f, dev.outdoor_temperature)
+        ctx.case(stream, key=(hx(p), hx(prev), step), sample={"payload": hx(p), "kind": kind})
+        prev = p
+
+
 def base_payload(rng, n=None):
     n = n if n is not None else rng.choice([16, 19, 20, 21, 22, 23, 24, 30])
     p = bytearray(rng.randrange(256) for _ in range(n))
@@ -134,6 +206,9 @@ def run(ctx):
             for _ in range(3):
                 one(ctx, "length", bytes(base_payload(rng, n)), style=style)
             one(ctx, "refresh", bytes(base_payload(rng, n)), style=style, via="refresh")
+    for n in (16, 17, 19, 20, 22, 23, 30):
+        for _ in range(2 if not thorough else 30):
+            history(ctx, rng, n, 3 * n)
     for _ in range(500 if not thorough else 20000):
         one(ctx, "random", bytes(base_payload(rng)), style=rng.choice(["crc", "sum"]),
             ft=rng.choice([2, 3, 4, 5]))
